@@ -7,6 +7,7 @@
 #include <cstdio>
 #include <cstdlib>
 #include <cstring>
+#include <initializer_list>
 #include <map>
 #include <mutex>
 #include <sched.h>
@@ -56,6 +57,8 @@ struct Rng
   T const& pick(std::vector<T> const& v) { return v[below(v.size())]; }
   template <typename T, size_t N>
   T const& pick(T const (&a)[N]) { return a[below(N)]; }
+  template <typename T>
+  T pick(std::initializer_list<T> l) { return *(l.begin() + below(l.size())); }
 };
 
 inline uint64_t mix(uint64_t a, uint64_t b)
